@@ -198,6 +198,7 @@ func (p *Parser) ParseReader(r io.Reader, args ...any) (data any, err error) {
 
 			return
 		}
+		p.noff -= len(buf) - skip
 		skip = 0
 		if eof {
 			break
